@@ -6,6 +6,8 @@ verus! {
 //@include um_shells.rs
 //@include diff_meaning.rs
 
+#[verifier::external_body] pub struct Progression { _o: u8 }
+impl Progression { #[verifier::external_body] pub fn next(&self, i: usize) -> String { unimplemented!() } }
 pub uninterp spec fn g_sheet() -> u32;
 pub uninterp spec fn g_row() -> i32;
 pub uninterp spec fn g_column() -> i32;
@@ -107,6 +109,8 @@ impl<'a> Model<'a> {
     ensures r.is_ok() ==> r.unwrap() == self.own_style_at(sheet, row, column)
 //@end
 //@stub base/src/model.rs Model::get_style_for_cell
+//@end
+//@stub base/src/model.rs Model::extend_to
 //@end
 //@stub base/src/model.rs Model::set_user_input
     ensures r.is_err() ==> *final(self) == *old(self)
@@ -321,6 +325,17 @@ pub fn cut_source_style_reset(&mut self, sheet: u32, source_sheet: u32, row: i32
 {
     self.model
 //@fragment base/src/user_model/clipboard.rs UserModel::paste_from_clipboard `.set_cell_style(source_sheet, row, column, &default_style)?;` .. `new_value: Box::new(default_style),`
+//@end
+    Ok(())
+}
+/// autofill (rows): the style recorded as the OLD value of the filled cell is the one it had BEFORE the fill wrote into it (C01: undo puts it back)
+pub fn autofill_rows_cell(&mut self, sheet: u32, row: i32, column: i32, anchor_row: i32, index: i32, range_idx: usize, possible_progression: Option<Progression>, diff_list: &mut Vec<Diff>) -> (r: Result<(), String>)
+    requires -0x100000 <= anchor_row <= 0x100000, -0x100000 <= index <= 0x100000, sheet == g_sheet() && row == g_row() && column == g_column()
+    ensures r.is_ok() ==> final(diff_list)@.len() == old(diff_list)@.len() + 1 && (final(diff_list)@.last() matches Diff::SetCellStyle { sheet: s, row: r0, column: c, old_value, new_value }
+        && s == sheet && r0 == row && c == column && *old_value == old(self).model.own_style_at(sheet, row, column)),
+{
+//@fragment base/src/user_model/autofill.rs UserModel::auto_fill_rows `let old_style = self.model.get_cell_style_or_none(sheet, row, column)?;` .. `new_value: Box::new(new_style),`
+//@rewrite* `target_value.to_string()` => `target_value.clone()`
 //@end
     Ok(())
 }
